@@ -9,3 +9,6 @@ import MpsProps.Src.SrcDoernerSign
 import MpsProps.Src.SrcLInternalOt
 import MpsProps.Src.SrcLPkgHash
 import MpsProps.Src.SrcLPkgProtocol
+import MpsProps.Src.SrcLInternalRound
+import MpsProps.Src.SrcLPkgParty
+import MpsProps.Src.SrcLPkgMathPolynomial
